@@ -1,13 +1,17 @@
 ---------------------------- MODULE MC_Dispatch ----------------------------
 (* Constants of the exhaustive design check of Dispatch.tla (C06):
    declarations of <= MaxDecl members drawn from DispatchCore!Universe
-   {200, 204, 302, 404, 418, 500, default with / without content, 4XX, 5XX}
-   x one representative per status class and class border (MCStatusReps) or every status 100..599 (MCStatusAll)
-   x transport in {bundled, pass}. *)
+   {200, 204, 302, 404, 410 with body, 418, 500, default with / without content, 4XX, 5XX}, each with a choice of the
+   first listed response,
+   x one representative per status class, class border and declared code (MCStatusReps) or every status 100..599
+   x the body the server sends (MCBodies) x transport in {bundled, pass}. *)
 EXTENDS Dispatch
 
 MCMembers    == Universe
-MCStatusReps == {100, 199, 200, 204, 299, 300, 302, 399, 400, 404, 418, 499, 500, 503, 599}
+MCStatusReps == {100, 199, 200, 204, 299, 300, 302, 399, 400, 404, 410, 418, 499, 500, 503, 599}
 MCStatusAll  == 100..599
+MCBodies     == Bodies
+MCBodyStatuses == {100, 302, 404, 410, 418, 500, 503}   \* one per non-2xx class plus every numeric key of the family
+MCBodyObject == {"object"}
 MCTransports == {"bundled", "pass"}
 =============================================================================
